@@ -27,24 +27,29 @@ TECHNIQUE = "property-based testing: independent numpy reference pipeline + meta
 @st.composite
 def strategy(draw):
     dt = draw(gen.choice(gen.DTS))
-    nrec = draw(st.sampled_from([1, 1, 2, 3]))
+    spec = draw(gen.processing_spec(n_max=600, policy="frequency_domain_resampling"))
+    mixed = spec["method"] != "diffuse_field" and draw(gen.chance(4))
+    nrec = draw(st.sampled_from([4, 5])) if mixed else draw(st.sampled_from([1, 1, 2, 3]))
     equal_len = draw(st.booleans())
     n0 = draw(st.integers(16, 600))
     exp = draw(st.integers(-9, 9))
+    dt2 = draw(gen.choice(gen.DTS))
+    pattern = draw(st.sampled_from([[0, 1, 1, 0, 1], [0, 1, 0, 0, 1], [1, 0, 0, 1, 1], [0, 0, 1, 0, 1]])) if mixed else [0] * 5
     recs = []
-    for _ in range(nrec):
+    for i in range(nrec):
         n = n0 if equal_len else draw(st.integers(16, 600))
-        recs.append(draw(gen.recording_recipe(n=n, dt=dt, scale_exp=(exp, exp), dfn_range=(0, 0))))
-    spec = draw(gen.processing_spec(n_max=600, policy="frequency_domain_resampling"))
+        recs.append(draw(gen.recording_recipe(n=n, dt=[dt, dt2][pattern[i]], scale_exp=(exp, exp), dfn_range=(0, 0))))
     if spec["method"] == "diffuse_field":
         for r in recs:
             r["n"] = n0
         spec["policy"] = "keeping_majority_time_step"
     nfft = spec["_nfft"]
-    fcs = draw(gen.center_frequencies(spec["op"], spec["bw"], 1.0 / (nfft * dt), 0.5 / dt))
+    dts_used = [r["dt"] for r in recs]
+    df_max, fnyq_min = 1.0 / (nfft * min(dts_used)), 0.5 / max(dts_used)
+    fcs = draw(gen.center_frequencies(spec["op"], spec["bw"], df_max, fnyq_min))
     if fcs is None:
         spec["op"], spec["bw"] = "konno_and_ohmachi", 40.0
-        fcs = draw(gen.center_frequencies(spec["op"], spec["bw"], 1.0 / (nfft * dt), 0.5 / dt))
+        fcs = draw(gen.center_frequencies(spec["op"], spec["bw"], df_max, fnyq_min))
     spec["fcs"] = fcs
     k = draw(st.sampled_from([-8, -3, -1, 1, 2, 5, 8]))
     prop = dict(A=draw(st.one_of(gen.signed(0.01, 5), st.sampled_from([1.0, -1.0, 2.0, 0.0]))),
@@ -72,7 +77,8 @@ def _curves(result, method):
 
 def _process(hv, arrays, dt, spec):
     TS, R = hv.TimeSeries, hv.SeismicRecording3C
-    recs = [R(TS(ns, dt), TS(ew, dt), TS(vt, dt)) for (ns, ew, vt) in arrays]
+    dts = dt if isinstance(dt, list) else [dt] * len(arrays)
+    recs = [R(TS(ns, d), TS(ew, d), TS(vt, d)) for (ns, ew, vt), d in zip(arrays, dts)]
     settings = gen.make_settings(hv, spec)
     res = sut(hv.process, recs, settings, what=f"process[{spec['method']}]")
     return res, settings
@@ -83,7 +89,9 @@ def _reference(arrays, dt, spec, nfft):
     m = spec["method"]
     fcs = np.array(spec["fcs"], dtype=float)
     amb_all = np.zeros(len(fcs), dtype=bool)
+    dts = dt if isinstance(dt, list) else [dt] * len(arrays)
     if m == "diffuse_field":
+        dt = dts[0]
         cur, amb = oracle.ref_diffuse_field([a[0] for a in arrays], [a[1] for a in arrays], [a[2] for a in arrays],
                                             dt, spec["op"], spec["bw"], fcs, spec["width"], nfft)
         return [(None, cur[None, :])], amb
@@ -91,14 +99,14 @@ def _reference(arrays, dt, spec, nfft):
         out = []
         for az in spec["azimuths"]:
             rows = []
-            for (ns, ew, vt) in arrays:
+            for (ns, ew, vt), dt in zip(arrays, dts):
                 cur, amb = oracle.ref_hvsr(ns, ew, vt, dt, "single_azimuth", spec["op"], spec["bw"], fcs, spec["width"], nfft, azimuth=az)
                 amb_all |= amb
                 rows.append(cur)
             out.append((az, np.array(rows)))
         return out, amb_all
     rows = []
-    for (ns, ew, vt) in arrays:
+    for (ns, ew, vt), dt in zip(arrays, dts):
         cur, amb = oracle.ref_hvsr(ns, ew, vt, dt, m, spec["op"], spec["bw"], fcs, spec["width"], nfft,
                                    azimuth=spec.get("azimuth"), azimuths=spec.get("azimuths"), percentile=spec.get("percentile"))
         amb_all |= amb
@@ -108,11 +116,14 @@ def _reference(arrays, dt, spec, nfft):
 
 def check_case(case):
     import hvsrpy as hv
-    spec, dt = case["spec"], case["dt"]
+    spec = case["spec"]
+    dt = [r["dt"] for r in case["records"]]
     m = spec["method"]
     fcs = np.array(spec["fcs"], dtype=float)
     arrays = [gen.expand_recording_arrays(r) for r in case["records"]]
     labels = [f"{gen.family(m)}|{spec['op']}", m]
+    if len(set(dt)) > 1:
+        labels.append("mixed-dt")
     res, settings = _process(hv, arrays, dt, spec)
 
     # frequency vector = requested centres, exactly; FFT length pads, never truncates
@@ -166,15 +177,21 @@ def check_case(case):
     sig = gen.expand_signal(P["base"], n)
     if np.ptp(sig) > 0:
         parr = [(P["A"] * sig, P["B"] * sig, P["C"] * sig)] * (2 if m == "diffuse_field" else 1)
-        pres = rows_of(parr)
+        pres = [g for _, g in _curves(_process(hv, parr, dt[0], spec)[0], m)]
         if m == "azimuthal":
             expect = [oracle.closed_form("single_azimuth", P["A"], P["B"], P["C"], azimuth=az) for az in spec["azimuths"]]
         else:
             expect = [oracle.closed_form(m, P["A"], P["B"], P["C"], azimuth=spec.get("azimuth"),
                                          azimuths=spec.get("azimuths"), percentile=spec.get("percentile"))]
         href = math.sqrt(P["A"] ** 2 + P["B"] ** 2) / abs(P["C"])
+        # FFT rounding noise is ~eps x the spectral peak: where the smoothed spectrum lies d decades below its
+        # peak the three separately transformed components are proportional only to ~eps x 10^d
+        fgrid = np.fft.rfftfreq(nfft, dt[0])
+        S = oracle.amp_spectrum(sig, spec["width"], nfft)
+        Ssm, _ = oracle.ref_smooth(spec["op"], fgrid, S, fcs, spec["bw"])
+        dyn = float(S.max()) / np.maximum(np.abs(Ssm[0]), 1e-300)
         for g, e in zip(pres, expect):
-            if not close(g[:, keep], e, rtol=1e-9, atol=1e-12 * href):
+            if not close(g[:, keep], e, rtol=1e-9, atol=(1e-12 + 1e-13 * dyn[keep]) * href):
                 raise Violation(f"{m}: proportional components A={P['A']}, B={P['B']}, C={P['C']} give {g[0, keep][:3].tolist()}..., "
                                 f"closed form combine(A,B)/|C| = {e!r}", expected=e)
         labels.append("closed-form")
